@@ -321,6 +321,13 @@ def call_native(I, fn, args, kwargs):
     """Native call of a callable outside /repo.  Allowed when every argument is concrete (the
     callee then is plain CPython on constants of the tree) or when an assumed contract exists."""
     reg = I.registry
+    import logging as _logging
+
+    if isinstance(fn, types.MethodType) and isinstance(fn.__self__, _logging.Logger):
+        # a logger method held in a variable (`log = LOGGER.warning; log(...)`): the call is dropped like a direct
+        # LOGGER.x(...) call; its arguments have been evaluated by the caller already
+        I.ctx.dropped.add("logger call (the call itself; its arguments are evaluated for exceptions)")
+        return False if fn.__name__ == "isEnabledFor" else None
     mod = getattr(fn, "__module__", None) or getattr(getattr(fn, "__self__", None), "__class__", type(None)).__module__
     name = getattr(fn, "__qualname__", getattr(fn, "__name__", repr(fn)))
     qn = f"{mod}.{name}"
@@ -1050,9 +1057,17 @@ def b_id(I, args, kwargs):
 
 
 def b_sorted(I, args, kwargs):
-    items = I.iterate_concrete(args[0])
-    if _has_sym(items):
-        raise Unsupported("sorted of symbolic items")
+    items = list(I.iterate_concrete(args[0]))
+    key = kwargs.get("key")
+    if _has_sym(items) or (key is not None and not isinstance(key, (types.BuiltinFunctionType, type))):
+        if key is None:
+            raise Unsupported("sorted of symbolic items")
+        # items with symbolic parts ordered by a key that is concrete for every one of them: CPython's stable sort
+        keys = [call(I, key, [x], {}) for x in items]
+        if _has_sym(keys):
+            raise Unsupported("sorted of symbolic items by a symbolic key")
+        order = sorted(range(len(items)), key=lambda i: keys[i], reverse=bool(kwargs.get("reverse", False)))
+        return [items[i] for i in order]
     return sorted(items, **kwargs)
 
 
